@@ -63,6 +63,11 @@ def ord_merge(p, res):
     def layer(e):
         """(layer, raw subscript?, table expression for the guard)"""
         e2 = shape.expand(e, defs)
+        if isinstance(e2, ast.BoolOp) and isinstance(e2.op, ast.Or) and len(e2.values) >= 2:
+            # `A or B`: one layer stands in for another instead of being applied on top of it
+            subs = [layer(v)[0] for v in e2.values]
+            if all(x in LAYER_ORDER or x == 'unsafe' for x in subs) or sum(1 for x in subs if x in LAYER_ORDER) >= 2:
+                return ('either-or', False, None)
         base = keyexpr = None
         raw = False
         if isinstance(e2, ast.Subscript):
@@ -126,7 +131,9 @@ def ord_merge(p, res):
                     if roots & ({user, glob, 'SYNTAX_CONFIG', 'DEFAULT_CONFIG', 'DEFAULT_OPTIONS'}):
                         res.bad(F('ORD-MERGE', f, n, src_of(n), 'merging writes into %s' % src_of(r2)))
     got = [x[0][0] for x in seq]
-    if None in got or not seq:
+    if 'either-or' in got:
+        pass
+    elif None in got or not seq:
         res.undecided('update sources: %s' % [src_of(x[1].args[0]) for x in seq], 'every update source must be one of the six documented layers')
     elif got == LAYER_ORDER:
         res.ok('update order: ' + ' < '.join(got))
@@ -136,7 +143,9 @@ def ord_merge(p, res):
                   'layers must be applied as %s (later wins)' % ' < '.join(LAYER_ORDER),
                   details=['%s' % src_of(x[1].args[0]) for x in seq]))
     for (lay, raw, base), n in seq:
-        if lay in ('unsafe', 'unsafe-table'):
+        if lay == 'either-or':
+            res.bad(F('ORD-MERGE', f, n, src_of(shape.expand(n.args[0], defs)), 'two layers are combined with `or`: when the first one mentions the section the second is dropped altogether instead of being applied underneath (every layer must be merged key by key)'))
+        elif lay in ('unsafe', 'unsafe-table'):
             res.bad(F('ORD-MERGE', f, n, src_of(n), 'a layer is looked up without a default: a config that does not mention it (unknown syntax name, missing section) raises instead of being skipped'))
         elif raw and lay in LAYER_ORDER:
             want = '%s in %s' % (key, src_of(base))
